@@ -52,7 +52,7 @@ impl vstd::std_specs::convert::FromSpecImpl<ProtocolMessageError> for Error {
 // error.rs `impl From<ProcessMessageError<T>> for Error`: never yields the variants that mdk reserves
 // for its own control flow (assumed from reading the match in error.rs)
 pub uninterp spec fn process_error_to_error(e: ProcessMessageError) -> Error;
-impl From<ProcessMessageError> for Error { #[verifier::external_body] fn from(e: ProcessMessageError) -> (r: Error) ensures r == process_error_to_error(e), !(r is OwnCommitPending), !(r is CommitFromNonAdmin) { unimplemented!() } }
+impl From<ProcessMessageError> for Error { #[verifier::external_body] fn from(e: ProcessMessageError) -> (r: Error) ensures r == process_error_to_error(e), !(r is OwnCommitPending), !(r is CommitFromNonAdmin), !(r is ProcessMessageWrongEpoch) { unimplemented!() } }
 impl vstd::std_specs::convert::FromSpecImpl<ProcessMessageError> for Error {
     open spec fn obeys_from_spec() -> bool { true }
     open spec fn from_spec(e: ProcessMessageError) -> Error { process_error_to_error(e) }
